@@ -28,7 +28,7 @@ RULE = ("Random grids of 2-12 daily/irregular timesteps of which ~85% carry an e
         "expanding. Non-trivial = fold strictly inside the grid with >= 2 valid starts or a refusal.")
 ASSUMPTIONS = ["the episode_length argument of reset() ('number of states') is not judged; the configured length is",
                "sampling_span cases only check membership, not reachability"]
-REQUIRED_CATS = ["events-added-then-rebuilt"]
+REQUIRED_CATS = ["events-added-then-rebuilt", "steps_delay:1", "steps_delay:2"]
 REQUIRED = ["C15:decisions-exact", "C15:start-valid", "C15:visits-contiguous", "C15:every-start-reachable", "C15:refused-when-none-fits",
             "C15:whole-fold", "C15:walk-forward"]
 TECHNIQUE = "runtime monitoring: visited timesteps (observer clock per call) compared with the fold's event-bearing steps; seeded reachability sweep"
@@ -81,6 +81,8 @@ def case(ctx, i, tier):
     s, e = folds[fold]
     steps = [g for g in bearing if s <= g <= e]
     span = rng.choice([None, None, 3])
+    delay = rng.choice([0, 0, 1, 2])      # an execution delay must not change the episode length
+    ctx.cat("steps_delay:%d" % delay)
     refusals = 0
     max_valid = 0
     ctx.sample = {"grid": grid, "event_bearing": bearing, "folds": folds, "fold": fold, "sampling_span": span}
@@ -89,7 +91,7 @@ def case(ctx, i, tier):
         tr.add_events(evs)
         sink = ep.Sink()
         env = TradingEnv(action_space=BoxPortfolio([ETF("A")]), transmitter=tr, state=ep.Rec(sink),
-                         episode_length=nlen, sampling_span=span)
+                         episode_length=nlen, sampling_span=span, steps_delay=delay)
         sink.env = env
         starts = collections.Counter()
         valid = steps[:len(steps) - nlen] if len(steps) - nlen > 0 else []
